@@ -78,7 +78,13 @@ var c06Pkgs = map[string]map[string]string{
 	"store": {"s.go": "package store\n\nimport \"github.com/goose-lang/goose/machine/disk\"\n\nfunc Cap() uint64 {\n\treturn disk.BlockSize\n}\n"},
 	"alpha": {"a.go": "package alpha\n\nimport \"example.com/c06mod/store\"\n\nfunc A() uint64 {\n\treturn store.Cap() + 1\n}\n"},
 	"beta":  {"b.go": "package beta\n\nimport \"example.com/c06mod/store\"\n\nfunc B() uint64 {\n\treturn store.Cap() + 2\n}\n"},
-	"multi": {"m1.go": "package multi\n\nfunc M1() uint64 {\n\treturn M2() + 1\n}\n", "m2.go": "package multi\n\nfunc M2() uint64 {\n\treturn 2\n}\n"},
+	// two packages that each pass a struct where an interface is expected (the generated conversions are rendered by the
+	// per-package workers while they translate)
+	"iface1": {"i.go": "package iface1\n\ntype Shape interface {\n\tArea() uint64\n\tSide() uint64\n}\n\ntype Sq struct {\n\tw uint64\n}\n\nfunc (s Sq) Area() uint64 {\n\treturn s.w * s.w\n}\n\nfunc (s Sq) Side() uint64 {\n\treturn s.w\n}\n\nfunc measure(s Shape) uint64 {\n\treturn s.Area() + s.Side()\n}\n\nfunc Use(x uint64) uint64 {\n\tvar t uint64 = 0\n\tif x > 3 {\n\t\tfor i := uint64(0); i < x; i++ {\n\t\t\tif measure(Sq{w: i}) > 10 {\n\t\t\t\tt = t + measure(Sq{w: x})\n\t\t\t}\n\t\t}\n\t}\n\treturn t + measure(Sq{w: 1})\n}\n"},
+	"iface2": {"j.go": "package iface2\n\ntype Named interface {\n\tId() uint64\n}\n\ntype Rec struct {\n\tid uint64\n}\n\nfunc (r Rec) Id() uint64 {\n\treturn r.id\n}\n\nfunc get(n Named) uint64 {\n\treturn n.Id()\n}\n\nfunc Use(x uint64) uint64 {\n\tr := Rec{id: x}\n\tvar t uint64 = 0\n\tif x > 1 {\n\t\tif x > 2 {\n\t\t\tif x > 3 {\n\t\t\t\tt = get(r) + get(Rec{id: 2})\n\t\t\t}\n\t\t}\n\t}\n\treturn t + get(r)\n}\n"},
+	// a pattern that names a directory which does not exist (no entry is written for it)
+	"failmissing": {},
+	"multi":       {"m1.go": "package multi\n\nfunc M1() uint64 {\n\treturn M2() + 1\n}\n", "m2.go": "package multi\n\nfunc M2() uint64 {\n\treturn 2\n}\n"},
 }
 
 func c06Module(c *ev.Ctx, root string) error {
@@ -91,6 +97,9 @@ func c06Module(c *ev.Ctx, root string) error {
 	sum, _ := os.ReadFile(filepath.Join(c.Repo, "go.sum"))
 	_ = os.WriteFile(filepath.Join(root, "go.sum"), sum, 0644)
 	for p, files := range c06Pkgs {
+		if len(files) == 0 {
+			continue
+		}
 		_ = os.MkdirAll(filepath.Join(root, p), 0755)
 		for n, s := range files {
 			_ = os.WriteFile(filepath.Join(root, p, n), []byte(s), 0644)
@@ -129,7 +138,11 @@ func translateOnce(root string, pats []string) (res []c06Result, err error) {
 			eh := sha256.Sum256([]byte(errs[i].Error()))
 			es = fmt.Sprintf("%x", eh[:6])
 		}
-		res = append(res, c06Result{pkg: strings.TrimPrefix(f.PkgPath, c06Mod+"/"), hash: fmt.Sprintf("%x", h[:8]), errs: es})
+		pk := strings.TrimPrefix(f.PkgPath, c06Mod+"/")
+		if pk == "" {
+			pk = "failmissing" // the one pattern that names no loadable package
+		}
+		res = append(res, c06Result{pkg: pk, hash: fmt.Sprintf("%x", h[:8]), errs: es})
 	}
 	return res, nil
 }
@@ -522,6 +535,9 @@ func c06CLI(c *ev.Ctx, root string, names []string, aloneHash map[string]string)
 	last := map[string]string{}
 	for _, p := range names {
 		fs := c06Pkgs[p]
+		if len(fs) == 0 {
+			continue
+		}
 		var fns []string
 		for n := range fs {
 			fns = append(fns, n)
@@ -532,6 +548,9 @@ func c06CLI(c *ev.Ctx, root string, names []string, aloneHash map[string]string)
 	}
 	o1, code1 := runGooseCLI(c, root, out, pats...)
 	for _, p := range names {
+		if last[p] == "" {
+			continue
+		}
 		_ = os.WriteFile(filepath.Join(root, p, last[p]), []byte(c06Pkgs[p][last[p]]), 0644)
 	}
 	if code1 != 0 {
